@@ -102,7 +102,7 @@ class Recorder:
 CONFIGS = [  # (bits per voxel, blockshape) -- all valid: product * bpv = 32768 bits
     (8, (4, 4, 256)), (4, (4, 4, -1)), (2, (4, 4, 1024)), (1, (4, 4, 2048)), (0.5, (4, 4, 4096)), (16, (4, 4, 128)), (32, (4, 4, 64)),
     (2, (64, 64, 4)), (2, (4, 8, 512)), (4, (8, 8, 128)), (8, (16, 16, 16)), (8, (32, 32, 4)), (4, (4, 16, 128)), (0.25, (64, 64, 32)),
-    (16, (8, 4, 64)), (2, (16, 4, 256)),
+    (16, (8, 4, 64)), (2, (16, 4, 256)), (2, (32, 128, 4)), (8, (16, 64, 4)), (4, (64, 32, 4)),
 ]
 
 
@@ -164,9 +164,19 @@ def run_case(route, shape, bpv, bs, d, idx):
     # O1
     with SgzReader(p) as r:
         vol = r.read_volume()
-    want = zfp_image(src, rate)
-    if not bits_equal(vol, want):
-        R.violation('oracle', inp, f'read_volume differs from the ZFP image of the edge-extended source (max abs diff {float(np.abs(vol - want).max())})')
+        want = zfp_image(src, rate)
+        if not bits_equal(vol, want):
+            R.violation('oracle', inp, f'read_volume differs from the ZFP image of the edge-extended source (max abs diff {float(np.abs(vol - want).max())})')
+        else:
+            # read-back is the same through every specialised path (its own loader routine per layout)
+            n0, n1, n2 = want.shape
+            for name, k, sl in [('read_inline', i_, want[i_]) for i_ in sorted({0, n0 - 1, n0 // 2})] + \
+                               [('read_crossline', x_, want[:, x_]) for x_ in sorted({0, n1 - 1, n1 // 2})] + \
+                               [('read_zslice', z_, want[:, :, z_]) for z_ in sorted({0, n2 - 1, n2 // 2, min(n2 - 1, 4)})]:
+                got = getattr(r, name)(k)
+                if not bits_equal(got, sl):
+                    R.violation('oracle', inp, f'{name}({k}) differs from the ZFP image of the edge-extended source although read_volume() agrees')
+                    break
     # O2
     if os.path.getsize(p) != sp.expected_length():
         R.violation('oracle', inp, f'file length {os.path.getsize(p)} != {sp.expected_length()} derived from the header')
